@@ -55,6 +55,9 @@ type nodeOpts struct {
 	SyncFn           string `json:"sync_fn,omitempty"`
 	ReadFaults       bool   `json:"read_faults,omitempty"`
 	OldRevExpiryS    int    `json:"old_rev_expiry_s,omitempty"`
+	// rosmar buckets always report cross-cluster versioning enabled, which switches obsolete-attachment removal off;
+	// CCVOff makes the node believe what a Couchbase Server bucket without ECCV reports
+	CCVOff bool `json:"ccv_off,omitempty"`
 }
 
 type simWorld struct {
@@ -181,6 +184,9 @@ func (w *simWorld) startNode(name string, o nodeOpts) (*simNode, error) {
 		}
 		if o.RevsLimit > 0 {
 			dbc.RevsLimit = uint32(o.RevsLimit)
+		}
+		if o.CCVOff {
+			dbc.CachedCCVEnabled.Store(false)
 		}
 		ctx = dbc.AddDatabaseLogContext(ctx)
 		if err = dbc.StartOnlineProcesses(ctx); err != nil {
